@@ -28,7 +28,16 @@ _P = [p for p in dict.fromkeys(PRE) if p]
 # ordered markers whose digits are not the canonical spelling of their value: info is the digits written
 _ORDERED = ["007. james\n008. bond\n", "01) a\n02) b\n", "000000003. z\n", "> 00. a\n> 01. b\n", "- 010. x\n  011. y\n",
             "1. a\n\n   09. inner\n   10. more\n", "0. zero\n1. one\n", "text\n\n0001) only\n"]
-FIXED = _ORDERED + [_wrap(a + b, lf) for lf in _TABLEAF for a in [""] + _P for b in _P]
+# quoted verbatim blocks whose lines spell the quote marker differently (different widths, tabs after the marker): the
+# column offset of a line is a per-line quantity (bsCount[line]), not that of the first line of the block
+_QPRE = [">", "> ", ">\t", " >", "  >\t", "   > ", " >\t "]
+_VARQ = []
+for _lf in ["    a\n\t\tb\n \t c", "```\n\t\ty\n\t\tx = 1\n```", "\tcode\n    more\n\t  end", "<pre>\n\t x\n  \ty\n</pre>"]:
+    _ls = _lf.split("\n")
+    for _k in range(len(_QPRE)):
+        _VARQ.append("\n".join(_QPRE[(_k + 3 * _j) % len(_QPRE)] + _l for _j, _l in enumerate(_ls)) + "\n")
+_VARQ += ["  >\t    a\n>\t\tb\n", ">     a\n  >\t \t b\n", ">  ```\n>\t\ty\n  >\t\tx = 1\n>  ```\n"]
+FIXED = _ORDERED + _VARQ + [_wrap(a + b, lf) for lf in _TABLEAF for a in [""] + _P for b in _P]
 _state = {"i": 0}
 
 
